@@ -39,26 +39,33 @@ Theorem loads_multi_mixed_full dec can st parts a file :
   multi_dom_mixed dec can st parts a file -> ref_write_multi st parts a = Some file ->
   exists d t, load_ext dec can file = LOk d t /\ d_version d = a_version a /\
     (forall id, In (fst id) (part_xids parts) \/ same_opt (lookup (d_objects d) id) (lookup (content a) id)) /\
-    (forall k, In k [bs "Type"; bs "W"; bs "Index"; bs "Length"; bs "Filter"; bs "DecodeParms"; bs "Size"] \/
-               same_opt (dict_get (d_trailer d) k) (dict_get (a_trailer a) k)).
+    (forall k, In k [bs "Type"; bs "W"; bs "Index"; bs "Length"; bs "Filter"; bs "DecodeParms"] \/
+               same_opt (dict_get (d_trailer d) k)
+                        (dict_get (a_trailer a ++ [(bs "Size", OInt (Z.of_N (1 + max_num (LoadsTableProofs.nums a ++ part_xids parts))))]) k)).
 Proof.
   intros [Hos [Hdom [Htops [Hu [Htr [Hn32 [Hlen [H25 Hwin]]]]]]]] Hw.
   destruct (ref_write_multi_xids st parts a file Hos Hw) as [Hndx H0x].
   pose proof (NoDup_app_l _ _ Hndx) as Hnd.
-  destruct (LoadsMultiMixed.loads_multi_mixed st a Hos dec can (part_xids parts) Hndx H0x Htops Htr Hn32 parts file Hu Hw Hlen Hdom H25 Hwin)
-    as [d [t [Hl [Hv [P1 [P2 [t0 [Et [Hwf [d0 [y0 [Hw0 Hsrc]]]]]]]]]]]].
+  destruct (LoadsMultiMixed.loads_multi_mixed st a Hos dec can (part_xids parts) Hndx H0x Htops Htr Hn32 parts file Hu Hw Hlen Hdom H25 Hwin (fun n H => H))
+    as [d [t [Hl [Hv [P1 [P2 [t0 [Et [[Hwf [d0 [y0 [Hw0 Hsrc]]]] Hsz]]]]]]]]].
   exists d, t. split; [exact Hl|]. split; [exact Hv|]. split.
   2:{ intro k.
-      destruct (in_dec (list_eq_dec Byte.byte_eq_dec) k [bs "Type"; bs "W"; bs "Index"; bs "Length"; bs "Filter"; bs "DecodeParms"; bs "Size"])
+      destruct (in_dec (list_eq_dec Byte.byte_eq_dec) k [bs "Type"; bs "W"; bs "Index"; bs "Length"; bs "Filter"; bs "DecodeParms"])
         as [Hin|Hnin]; [left; exact Hin|right].
       rewrite Et. destruct (list_eq_dec Byte.byte_eq_dec k K_Prev) as [->|Hne].
-      - rewrite (FilterProofsDict.dict_get_swap_remove_same t0 K_Prev Hwf). destruct Htr as [_ [Hp _]]. rewrite Hp. exact I.
+      - rewrite (FilterProofsDict.dict_get_swap_remove_same t0 K_Prev Hwf). rewrite dict_get_app_other by reflexivity.
+        destruct Htr as [_ [Hp _]]. rewrite Hp. exact I.
       - rewrite (FilterProofsDict.dict_get_swap_remove_other t0 K_Prev k Hwf Hne).
-        assert (Hex : ~ In k LoadsMultiMixed.tr_excl).
-        { intro K. unfold LoadsMultiMixed.tr_excl in K. cbn [In] in K. cbn [In] in Hnin.
-          destruct K as [K|[K|[K|[K|[K|[K|[K|[K|[]]]]]]]]]; try (apply Hnin; tauto). apply Hne. symmetry. exact K. }
-        destruct (Hsrc k Hex) as [S1 S2]. rewrite S1, <- S2. apply dict_get_denote_same.
-        apply SpellingObjProofs.spell_wf_dict in Hw0. apply Hw0. }
+        destruct (list_eq_dec Byte.byte_eq_dec k RefWriter.K_Size) as [->|Hns].
+        + change Xref.K_Size with RefWriter.K_Size in Hsz. rewrite Hsz.
+          change (bs "Size") with RefWriter.K_Size. rewrite dict_get_app_r by apply Htr. constructor.
+        + assert (Hex : ~ In k LoadsMultiMixed.tr_excl).
+          { intro K. unfold LoadsMultiMixed.tr_excl in K. cbn [In] in K. cbn [In] in Hnin.
+            destruct K as [K|[K|[K|[K|[K|[K|[K|[K|[]]]]]]]]]; try (apply Hnin; tauto); [apply Hns|apply Hne]; symmetry; exact K. }
+          rewrite dict_get_app_other.
+          2:{ destruct (bytes_eqb (bs "Size") k) eqn:E; [|reflexivity]. apply bytes_eqb_eq in E. exfalso. apply Hns. symmetry. exact E. }
+          destruct (Hsrc k Hex) as [S1 S2]. rewrite S1, <- S2. apply dict_get_denote_same.
+          apply SpellingObjProofs.spell_wf_dict in Hw0. apply Hw0. }
   intro id.
   destruct (in_dec N.eq_dec (fst id) (part_xids parts)) as [Hs|Hs]; [left; exact Hs|right].
   destruct (lookup (content a) id) as [o'|] eqn:Ec.
